@@ -38,12 +38,13 @@ func vfC08ConfigTagged(w *vfWorld, opts string, shape string, tag string) *Confi
 	return conf
 }
 
-// VerifC08: args = [source (may carry directives / be malformed), variant, options].
+// VerifC08: args = [source (may carry directives / be malformed), variant, options, shape, "undef" (optional: AllowUndefinedVariable on)].
 //
 //	"frozen": the caller's config is frozen; Compile (successful or failing) must not
 //	          write into it nor into a package variable.
 //	"cross":  compilations with two configs that use the same names for other things, alternating:
 //	          neither influences what the other returns.
+//	"nil":    Compile(nil, …) and CopyConfig(nil): no state is carried from one call to the next.
 //	"order":  the same source compiled again under every iteration order of the config
 //	          maps (Go leaves map order unspecified) and after other compilations gives
 //	          the same Dump / DumpTable and the same Eval result on a shared binding.
@@ -54,9 +55,32 @@ func VerifC08(args []string) {
 	vfAssert(ok, "harness: skeleton readable by the reference reader")
 	w := newWorld(tree, "")
 	conf := vfC08Config(w, opts, shape)
+	if len(args) > 4 && args[4] == "undef" {
+		conf.CompileOptions[AllowUndefinedVariable] = true
+	}
+	if variant == "nil" {
+		// no config at all: every such compilation starts from the same defaults, directives of one do not
+		// reach the next, and the configs CopyConfig(nil) hands out are independent of each other
+		e0, err0 := Compile(NewConfig(), shape)
+		vfAssert(err0 == nil && e0 != nil, "a variable-free source compiles under an empty config")
+		d0, t0 := Dump(e0), DumpTable(e0, false)
+		Compile(nil, src)
+		e1, err1 := Compile(nil, shape)
+		vfReach("nil-config")
+		vfAssert(err1 == nil && e1 != nil, "a variable-free source compiles without a config")
+		vfAssert(Dump(e1) == d0 && DumpTable(e1, false) == t0, "an earlier compilation without a config changed what the next one returns")
+		c1, c2 := CopyConfig(nil), CopyConfig(nil)
+		vfAssert(c1 != nil && c2 != nil && c1 != c2, "CopyConfig(nil) returns distinct configs")
+		vfAssert(vfSharedMutable(c1, c2) == 0, "two configs from CopyConfig(nil) share a map or slice")
+		c1.ConstantMap["X"] = int64(1)
+		c1.CompileOptions[Reordering] = false
+		vfAssert(len(c2.ConstantMap) == 0 && len(c2.CompileOptions) == len(NewConfig().CompileOptions), "writing one config from CopyConfig(nil) changed another")
+		return
+	}
 	if variant == "frozen" {
 		nOpts := len(conf.CompileOptions)
 		nConst := len(conf.ConstantMap)
+		nVars, nOps, nCosts := len(conf.VariableKeyMap), len(conf.OperatorMap), len(conf.CostsMap)
 		vfFreezeStop(w)
 		vfFreeze(conf)
 		e, err := Compile(conf, src)
@@ -69,7 +93,7 @@ func VerifC08(args []string) {
 		vfAssert((e == nil) != (err == nil), "Compile returns exactly one of program and error")
 		vfAssert(vfFrozenWrites() == 0, "Compile wrote into the caller's Config")
 		vfAssert(vfGlobalWrites() == 0, "Compile wrote a package variable")
-		vfAssert(len(conf.CompileOptions) == nOpts && len(conf.ConstantMap) == nConst, "Compile changed the size of a caller-owned map")
+		vfAssert(len(conf.CompileOptions) == nOpts && len(conf.ConstantMap) == nConst && len(conf.VariableKeyMap) == nVars && len(conf.OperatorMap) == nOps && len(conf.CostsMap) == nCosts, "Compile changed the size of a caller-owned map")
 		vfAssert(len(conf.StatelessOperators) == 2 && cap(conf.StatelessOperators) == 4 && conf.StatelessOperators[:4][2] == "", "Compile appended into the caller's StatelessOperators array")
 		vfAssert(conf.StatelessOperators[0] == "absent" && conf.StatelessOperators[1] == "p", "Compile rewrote the caller's StatelessOperators")
 		return
@@ -86,6 +110,17 @@ func VerifC08(args []string) {
 			if iv, ok := v.(int64); ok {
 				other.ConstantMap[k] = iv + 1
 			}
+		}
+		// the two configs also price different names: the first has entries the other lacks and vice versa,
+		// so an entry surviving from one compilation into the next shows in the operand order
+		if len(w.order) > 0 {
+			delete(other.CostsMap, w.order[0])
+			delete(other.CostsMap, "variable")
+			last := w.order[len(w.order)-1]
+			if last != w.order[0] {
+				other.CostsMap[last] = vfCost("cost.last.other")
+			}
+			other.CostsMap["p"] = vfCost("cost.p.other")
 		}
 		e1, err1 := Compile(other, src)
 		vfAssert(err1 == nil && e1 != nil, "source compiles")
